@@ -15,12 +15,13 @@ def explicit(tier, seed):
     rng = random.Random(seed + 17)
     i = 0
     for polls in (1, 2, 3, 5):
-        for fnk in ("inc", "wrap", "append", "vals"):
+        for fnk in ("inc", "wrap", "append", "vals", "mutate", "mutate-dict"):
             for serdes in (None, "json", "tagged"):
                 if fnk == "wrap" and serdes is not None:
                     continue  # tuples are outside the JSON serdes' exact domain
-                init = {"inc": rng.randrange(5), "wrap": gen_value(rng), "append": [], "vals": gen_value(rng, json_only=serdes is not None)}[fnk]
-                checks = [{"do": "ok", "fn": fnk}]
+                init = {"inc": rng.randrange(5), "wrap": gen_value(rng), "append": [], "vals": gen_value(rng, json_only=serdes is not None),
+                        "mutate": ["s"], "mutate-dict": {"a": 0}}[fnk]
+                checks = [{"do": "ok", "fn": fnk.split("-")[0]}]
                 if fnk == "vals":
                     checks = [{"do": "ok", "val": gen_value(rng, json_only=serdes is not None)} for _ in range(polls)]
                 dec = [("cont", rng.choice([0, 1, 2, 30]))] * (polls - 1) + [("stop",)]
@@ -34,16 +35,34 @@ def explicit(tier, seed):
                     i += 1
 
 
+def explicit_all(tier, seed):
+    yield from explicit(tier, seed)
+    # a check that fails on poll n with each class of error (incl. the SDK's own "unrecoverable" family, which applications derive
+    # from); the workflow catches it, continues and is re-invoked: the failure must be on record, the check never polled again
+    i = 0
+    for cls in ("UserErr", "ValueError", "ExecutionError", "SerDesError", "InvocationError", "DurableExecutionsError", "CallbackError"):
+        for at in (1, 2, 3):
+            checks = [{"do": "ok"}] * (at - 1) + [{"do": "fail", "cls": cls, "msg": "gone%d" % at}]
+            node = {"k": "wfc", "init": 0, "checks": checks, "decisions": [("cont", 1)] * 5 + [("stop",)]}
+            for shape in ("top", "branch"):
+                body = [{"k": "try", "body": node, "catch": "*"}, {"k": "step", "val": "compensate"}, {"k": "wait", "s": 1}, {"k": "step", "val": "after"}]
+                if shape == "branch":
+                    body = [{"k": "par", "branches": [{"body": body}, {"body": [{"k": "step", "val": 1}]}]}]
+                yield {"label": "wfc-failing-check-" + shape, "prog": {"body": body}, "prog_seed": 7900 + i,
+                       "pattern": {"p": "crash_enum", "max_points": 12} if (tier != "quick" or i % 5 == 0) else {"p": "plain"}}
+                i += 1
+
+
 SPEC = Spec(
     PROP,
     level="fault_enumeration",
     gen={"kinds": ["wfc", "wfc", "wfc", "step", "wait", "par", "map", "child"]},
-    explicit=explicit,
+    explicit=explicit_all,
     direct=run_wait_direct,
     quick={"plain": 40, "enum": 6, "rand": 16, "async": 8},
     thorough={"plain": 300, "enum": 80, "rand": 300, "async": 150, "perturb": 60},
     rule="(a) world runs: wait_for_condition with states over the serializer's domain (ints, nested tuples/Decimals/dicts, lists), "
-    "state functions (increment, wrap, append, scripted values), decision scripts (stop at n; delays 0,1,2,30), default/JSON/custom "
+    "state functions (increment, wrap, append, in-place mutation of a list/dict returning the same object, scripted values; checks failing at poll 1-3 with user and SDK error classes, caught by the workflow), decision scripts (stop at n; delays 0,1,2,30), default/JSON/custom "
     "serdes, at top level and inside branches x crash points between polls: poll 1 receives the initial state, poll n+1 receives "
     "exactly what poll n returned, the strategy sees the new state and backend retries+1, continue => RETRY with payload and delay>=1 "
     "applied before suspension, stop => SUCCEED and the call returns the last state, never polled while PENDING; (b) direct: "
